@@ -285,3 +285,18 @@ Proof.
     rewrite Hp. apply IH. intros q Hq. apply H. right. exact Hq. }
   rewrite E. reflexivity.
 Qed.
+
+(* a part written twice is reported, whatever else the record holds *)
+Lemma complex_sev_named_dup own named : has_dup (map fst named) = true -> complex_sev_named own named <= SEVERITY_WARNING.
+Proof.
+  intros D. unfold complex_sev_named. rewrite D.
+  set (pe0 := fold_left _ (map snd named) SEVERITY_NULL).
+  pose proof (greater_le_r pe0 SEVERITY_WARNING) as G.
+  destruct (Z.ltb_spec (greater pe0 SEVERITY_WARNING) SEVERITY_NULL) as [E|E].
+  - pose proof (greater_le_r own (greater pe0 SEVERITY_WARNING)). lia.
+  - unfold SEVERITY_WARNING, SEVERITY_NULL in *. lia.
+Qed.
+
+(* and when every part stands once, nothing changes *)
+Lemma complex_sev_named_nodup own named : has_dup (map fst named) = false -> complex_sev_named own named = complex_sev own (map snd named).
+Proof. intros D. unfold complex_sev_named, complex_sev. rewrite D. reflexivity. Qed.
